@@ -2,12 +2,85 @@ package main
 
 func init() {
 	plans["C03"] = plan{
-		Level: "exploration",
-		Rule: "exhaustive stage: every 5-card hand of the 52- and the 36-card deck under both ranking tables is scored by the evaluator and by an independent reference ranker; hands are grouped by reference key, every group must have one score and groups must be strictly increasing (decides every pair of hands); evaluations = hands scored; non-trivial = hand whose reference category is at least a pair (counted), plus distinct (hand, table, suit relabelling) triples of the metamorphic stage (all 120 card orders each)",
+		Level:  "exploration",
+		Rule:   "exhaustive stage: every 5-card hand of the 52- and the 36-card deck under both ranking tables is scored by the evaluator and by an independent reference ranker; hands are grouped by reference key, every group must have one score and groups must be strictly increasing (decides every pair of hands); evaluations = hands scored; non-trivial = hand whose reference category is at least a pair (counted), plus distinct (hand, table, suit relabelling) triples of the metamorphic stage (all 120 card orders each)",
 		Assume: []string{"the reference ranker (harness/cards/ref.go) encodes the rules of poker", "hands with ranks A-9-8-7-6 are left open under the 36-card deck or the short-deck table, as the property says"},
 		Stages: []stage{
 			{Name: "exhaustive", Harness: "cards", Test: "TestC03Exhaustive", Mode: "enum", Shards: 1},
 			{Name: "metamorphic", Harness: "cards", Test: "TestC03Perm", Mode: "rapid", Quick: 8000, Thorough: 400000},
 		},
 	}
+
+	vecAssume := []string{"the reference layered-pot model (harness/pots/ref.go) encodes the statement", "vectors are handed to pot.LevelList / settlement.Result exactly the way pot.go and settlement.go wire them (each player added once)"}
+	plans["C02"] = plan{
+		Level:  "exploration",
+		Rule:   "cases = contribution/fold/strength vectors (rapid, small-scope exhaustive grid n<=5 over {0..3}x{fold}x{1,2}, native fuzz in thorough) settled by the real pot+settlement packages and compared with a reference layered model (per-player interval); non-trivial = vector with >= 2 pots, or a tie, or a folded partial contributor; distinct = distinct (contributions, folds, strengths)",
+		Assume: vecAssume,
+		Stages: []stage{
+			{Name: "grid", Harness: "pots", Test: "TestVecGrid", Mode: "enum", Shards: 1},
+			{Name: "vectors", Harness: "pots", Test: "TestVecRapid", Mode: "rapid", Quick: 200000, Thorough: 5000000},
+			{Name: "fuzz", Harness: "pots", Test: "FuzzVec", Mode: "fuzz", FuzzSecs: 60, ThoroughOnly: true},
+		},
+	}
+	plans["C16"] = plan{
+		Level:  "exploration",
+		Rule:   "cases = contribution/fold vectors in any insertion order (rapid, exhaustive grid n<=5, native fuzz in thorough) turned into pots by pot.LevelList and checked against the partition formulas; non-trivial = >= 2 distinct positive contributions with a folded partial contributor, or a zero contribution; distinct = distinct (contributions, folds)",
+		Assume: vecAssume,
+		Stages: []stage{
+			{Name: "grid", Harness: "pots", Test: "TestVecGrid", Mode: "enum", Shards: 1},
+			{Name: "vectors", Harness: "pots", Test: "TestVecRapid", Mode: "rapid", Quick: 200000, Thorough: 5000000},
+			{Name: "fuzz", Harness: "pots", Test: "FuzzVec", Mode: "fuzz", FuzzSecs: 60, ThoroughOnly: true},
+		},
+	}
+
+	handAssume := []string{
+		"the deck order is put in place after Start() and before the first card is dealt (Start() shuffles with a time seed)",
+		"configurations are those of G-CFG (DESIGN.md §3): one dealer and one big-blind seat, positions as table/internal.go derives them, BB >= 1, a deck large enough to deal the hand",
+		"operations in scope are the Operations and Actions of the Game interface (what table.Backend exposes)",
+	}
+	hand := func(q, th int) stage {
+		return stage{Name: "hands", Harness: "hand", Test: "TestHand", Mode: "rapid", Quick: q, Thorough: th}
+	}
+	tiny := stage{Name: "tiny-games", Harness: "hand", Test: "TestTinyGames", Mode: "enum", Shards: 1}
+	plans["C01"] = plan{Level: "exploration", Assume: handAssume,
+		Rule:   "cases = generated (configuration, deck, play history incl. hostile amounts) driven through the real engine, chip identities checked after every operation; non-trivial = hand with >= 2 distinct positive contribution totals at close, or a stack within 1 chip of a forced amount, or a hostile/refused sized request; distinct = distinct (configuration, operation list)",
+		Stages: []stage{hand(8000, 400000)}}
+	plans["C04"] = plan{Level: "exploration", Assume: handAssume,
+		Rule:   "cases = generated hands with up to 6 negative probes at every wait point (table operation of another phase, action of another seat, unoffered action of the current seat, any action outside a round); every probe must return an error and leave the state JSON (minus updated_at) identical; turn order checked at every turn; non-trivial = hand with at least one probe; counters.probes = probes executed",
+		Stages: []stage{hand(4000, 80000)}}
+	plans["C05"] = plan{Level: "exploration", Assume: handAssume,
+		Rule:   "cases = generated hands with tight stacks (raise / short all-in heavy) + every action history of every tiny game (2 seats bankrolls 1..6, 3 seats 1..4; thorough 1..8 / 1..6; blinds 1/2); turn bookkeeping checked at every round closure; non-trivial = hand containing a round with a raise or all-in followed by a further turn",
+		Stages: []stage{tiny, hand(8000, 300000)}}
+	plans["C06"] = plan{Level: "exploration", Assume: handAssume,
+		Rule:   "cases = generated hands under all policies (the expected step must succeed, streets in order, no state repeats, step bound 16+n(4+E), result exactly at close, probes after close refused) + invalid start configurations + every action history of every tiny game (the DFS terminating with all leaves closed is the finiteness of every path there); non-trivial = hand with >= 2 streets, a fold-out or an all-in run-out; an invalid start",
+		Stages: []stage{tiny, {Name: "start", Harness: "hand", Test: "TestStartValidation", Mode: "rapid", Quick: 4000, Thorough: 100000}, hand(8000, 300000)}}
+	plans["C07"] = plan{Level: "exploration", Assume: append([]string{"game_id / created_at are copied at the fork; updated_at is ignored"}, handAssume...),
+		Rule:   "cases = generated hands advanced in lockstep on four replicas (in-memory; every call through table.NativeBackend; rebuilt from its own JSON at drawn cut points: never/always/random; an independently started second game); states compared as JSON after every operation, error results compared, backend input checked unmodified; non-trivial = hand with >= 10 compared operations that settled after JSON hops",
+		Stages: []stage{hand(3000, 60000)}}
+	plans["C10"] = plan{Level: "exploration", Assume: handAssume,
+		Rule:   "cases = (a) engine hands with themed decks, every seat checked on flop, turn, river and at close against the harness' own enumeration of admissible selections (public evaluator + independent reference ranker); (b) direct calls of GetAllPossibleCombinations on drawn hole/board sets; non-trivial = >= 4 board cards and best category >= pair; counters.evaluations_checked = player evaluations checked",
+		Stages: []stage{{Name: "direct", Harness: "cards", Test: "TestC10Direct", Mode: "rapid", Quick: 20000, Thorough: 400000}, hand(4000, 100000)}}
+	plans["C11"] = plan{Level: "exploration", Assume: handAssume,
+		Rule:   "cases = generated hands with boundary bankrolls; at every decision point the offered list is compared with the table derived from the statement and the effect of the accepted action is checked; non-trivial = hand with a decision where the stack is within 1 chip of the wager to match, the minimum raise level or the minimum bet",
+		Stages: []stage{hand(8000, 300000)}}
+	plans["C12"] = plan{Level: "exploration", Assume: handAssume,
+		Rule:   "cases = generated hands in which every bet/raise decision draws its amount from all classes (negative, zero, below/at the wager, undersized, minimum, above minimum, at/above the stack, +-2^62); classes:request:* is the histogram; non-trivial = hand with at least one sized request",
+		Stages: []stage{hand(8000, 300000)}}
+	plans["C13"] = plan{Level: "exploration", Assume: handAssume,
+		Rule:   "cases = forced-bet configurations driven Start..PayBlinds: exhaustive grid (n<=4, ante<=2, SB<=1, BB<=2, dealer blind 0/2, bankrolls 1..5, all buttons, live/dead SB) + rapid G-CFG; non-trivial = a stack within 1 chip of a forced amount it owes",
+		Stages: []stage{{Name: "grid", Harness: "hand", Test: "TestForcedGrid", Mode: "enum", Shards: 1}, {Name: "forced", Harness: "hand", Test: "TestForcedRapid", Mode: "rapid", Quick: 20000, Thorough: 1000000}, hand(2000, 50000)}}
+	plans["C14"] = plan{Level: "exploration", Assume: handAssume,
+		Rule:   "cases = generated hands (all endings), card accounting checked after every operation; ShuffleCards on drawn sub-decks; non-trivial = hand that reached the flop; shuffle input of >= 2 cards",
+		Stages: []stage{{Name: "shuffle", Harness: "hand", Test: "TestShuffle", Mode: "rapid", Quick: 5000, Thorough: 100000}, hand(8000, 300000)}}
+	plans["C15"] = plan{Level: "exploration", Assume: handAssume,
+		Rule:   "cases = states of generated hands (every 3rd operation in quick, every one in thorough, always at close) x every viewer seat and the observer; the view's JSON text must contain no secret card string, re-inserting the redacted fields must reproduce the state; non-trivial = hand with a burned card or closed with >= 1 folded and >= 2 shown hands; counters.views = views checked",
+		Stages: []stage{hand(3000, 60000)}}
+	c02 := plans["C02"]
+	c02.Stages = append(c02.Stages, stage{Name: "hands", Harness: "hand", Test: "TestHand", Mode: "rapid", Quick: 4000, Thorough: 80000})
+	c02.Assume = append(c02.Assume, handAssume...)
+	plans["C02"] = c02
+	c16 := plans["C16"]
+	c16.Stages = append(c16.Stages, stage{Name: "hands", Harness: "hand", Test: "TestHand", Mode: "rapid", Quick: 4000, Thorough: 80000})
+	c16.Assume = append(c16.Assume, handAssume...)
+	plans["C16"] = c16
 }
